@@ -30,6 +30,17 @@ from .passes import (
 ElaboratableType = TypeVar("ElaboratableType", bound=Elaboratables)
 
 
+# Each `ElabPass` class keeps a class-level cache of the Modules it has completed.
+# Repeating a pass *class* later in the pass-list would therefore find every Module done, and do nothing.
+# The post-flattening repeats of the checking passes are their own (sub)classes, which get their own caches.
+class ConnTypesRepeat(ConnTypes):
+    """Post-flattening repeat of `ConnTypes`"""
+
+
+class OrphanageRepeat(Orphanage):
+    """Post-flattening repeat of `Orphanage`"""
+
+
 @datatype
 class Elaborator:
     """
@@ -57,8 +68,8 @@ class Elaborator:
                 #
                 # A couple repeats
                 #
-                ConnTypes,
-                Orphanage,
+                ConnTypesRepeat,
+                OrphanageRepeat,
                 #
                 # And final module-marking
                 #
